@@ -89,7 +89,8 @@ def run(ctx):
         for k in range(rng.choice([3, 4, 6])):
             try:
                 s, order, tags, marks = spell(m, rng, mix_labels=rng.random() < 0.4,
-                                               digits_after_branch=rng.choice([0, 0, 0, 0.5]))
+                                               digits_after_branch=rng.choice([0, 0, 0, 0.5]),
+                                               spanning=rng.choice(["dfs", "dfs", "random"]))
             except ValueError:
                 ctx.count("too_many_open_labels")
                 break
